@@ -20,21 +20,21 @@ pub trait JhTy: Default + Clone + Update + FixedOutputDirty + Reset {
     fn pos(&mut self) -> usize;
 }
 macro_rules! jh {
-    ($T:ident, $out:expr, $get:ident, $set:ident) => {
+    ($T:ident, $out:expr, $get:ident, $set:ident, $setd:ident) => {
         impl JhTy for $T {
             const OUT: usize = $out;
-            fn datalen(&mut self) -> usize { *ic::$get(self).0 }
-            fn set_datalen(&mut self, n: usize) { *ic::$get(self).0 = n; }
+            fn datalen(&mut self) -> usize { ic::$get(self).0 as usize }
+            fn set_datalen(&mut self, n: usize) { ic::$setd(self, n as u128) }
             fn cv(&mut self) -> [u8; 128] { ic::$get(self).1 }
             fn set_cv(&mut self, cv: &[u8; 128]) { ic::$set(self, cv) }
             fn pos(&mut self) -> usize { ic::$get(self).2 }
         }
     };
 }
-jh!(Jh224, 28, j224, j224_set_cv);
-jh!(Jh256, 32, j256, j256_set_cv);
-jh!(Jh384, 48, j384, j384_set_cv);
-jh!(Jh512, 64, j512, j512_set_cv);
+jh!(Jh224, 28, j224, j224_set_cv, j224_set_datalen);
+jh!(Jh256, 32, j256, j256_set_cv, j256_set_datalen);
+jh!(Jh384, 48, j384, j384_set_cv, j384_set_datalen);
+jh!(Jh512, 64, j512, j512_set_cv, j512_set_datalen);
 
 const B: usize = 64;
 fn entry_is(k: usize, chain: &[u8; 128], block: &[u8; 64]) -> bool {
